@@ -24,6 +24,7 @@ static int ins_id(int bank, int entry) { return 1 + bank * 2 + entry; }   // ent
 
 struct Layout { unsigned present; unsigned blankA; unsigned blankB; };   // bit i = bank i ; blankA: entry 1 blank, blankB: entry 0 blank
 
+static std::vector<int> LATE_MODES = {1, 2, 0};
 struct Hist { int mode; int ch; int msb, lsb; int program; int key; int path; int order; bool drumpart; };
 
 static uint8_t roland_sum(const uint8_t *p, size_t n) { unsigned s = 0; for(size_t i = 0; i < n; i++) s += p[i] & 0x7F; return (uint8_t)((128 - (s & 127)) & 127); }
@@ -108,12 +109,13 @@ static void apply_history(pl::Instance &I, const Hist &h) {
         else opn2_rt_bankChange(d, ch, (OPN2_SInt16)(h.msb * 256 + h.lsb)); };
     auto drum = [&]() { if(h.drumpart) { uint8_t m[] = {0xF0, 0x41, 0x10, 0x42, 0x12, 0x40, 0x14, 0x15, 0x01, 0x00, 0xF7}; m[9] = roland_sum(&m[5], 4); opn2_rt_systemExclusive(d, m, sizeof m); } };   // part 4 -> MIDI channel 3
     if(h.order == 0) { mode(); drum(); bank(); opn2_rt_patchChange(d, (OPN2_UInt8)h.ch, (OPN2_UInt8)h.program); }
-    else { mode(); drum(); opn2_rt_patchChange(d, (OPN2_UInt8)h.ch, (OPN2_UInt8)h.program); bank(); }
+    else if(h.order == 1) { mode(); drum(); opn2_rt_patchChange(d, (OPN2_UInt8)h.ch, (OPN2_UInt8)h.program); bank(); }
+    else { bank(); opn2_rt_patchChange(d, (OPN2_UInt8)h.ch, (OPN2_UInt8)h.program); mode(); }   // bank select under the power-on mode (XG), the mode message arrives afterwards: the mode in force at the note-on decides
 }
 
 static std::string hist_str(const Hist &h) {
     static const char *M[] = {"GM", "GS", "XG"}; static const char *P[] = {"CC0/CC32", "rt_bankChangeMSB/LSB", "rt_bankChange"};
-    char b[200]; snprintf(b, sizeof b, "mode %s%s, channel %d, bank %d/%d via %s, program %d (%s), key %d", M[h.mode], h.drumpart ? " + GS drum part" : "", h.ch, h.msb, h.lsb, P[h.path], h.program, h.order ? "program before bank" : "bank before program", h.key);
+    char b[200]; snprintf(b, sizeof b, "mode %s%s, channel %d, bank %d/%d via %s, program %d (%s), key %d", M[h.mode], h.drumpart ? " + GS drum part" : "", h.ch, h.msb, h.lsb, P[h.path], h.program, h.order == 2 ? "bank and program selected in XG mode before the mode message" : h.order ? "program before bank" : "bank before program", h.key);
     return b;
 }
 static std::string layout_str(const Layout &L) { std::string r = "banks:"; for(int b = 0; b < NB; b++) if(L.present & (1u << b)) { char t[64]; snprintf(t, sizeof t, " %s%d%s%s", BANKS[b].perc ? "P" : "M", b == 6 ? 133 : b == 7 ? 128 : bank_number(b), (L.blankA >> b) & 1 ? "[A blank]" : "", (L.blankB >> b) & 1 ? "[B blank]" : ""); r += t; } return r; }
@@ -164,6 +166,9 @@ int main(int argc, char **argv) {
         std::vector<int> msbs = mode == 2 ? std::vector<int>{0, 1, 126, 127} : std::vector<int>{0, 1};
         for(int msb : msbs) for(int lsb = 0; lsb < 2; lsb++) for(int prog : {0, 5}) for(int key : {35, 60}) { Hist h; h.mode = mode; h.ch = ch; h.msb = msb; h.lsb = lsb; h.program = prog; h.key = key; h.path = path; h.order = order; h.drumpart = dp; hs.push_back(h); }
     }
+    // mode message after the bank select (which happened in the power-on XG mode): final mode GS (a channel that XG made a drum channel is melodic again) and XG (stays as selected)
+    for(int mode : LATE_MODES) for(int chs = 0; chs < 2; chs++) for(int path = 0; path < 3; path++) for(int msb : {0, 1, 126, 127}) for(int lsb = 0; lsb < 2; lsb++) for(int prog : {0, 5}) for(int key : {35, 60}) {
+        Hist h; h.mode = mode; h.ch = chs == 0 ? 0 : 3; h.msb = msb; h.lsb = lsb; h.program = prog; h.key = key; h.path = path; h.order = 2; h.drumpart = false; hs.push_back(h); }
     static std::vector<Hist> HS; HS = hs;
     std::vector<en::Family> fams;
     { unsigned nblank = thorough ? 128 : 128; (void)nblank;
